@@ -18,7 +18,8 @@ META = {
                  "stream (prefix replay), each transition compared with io.BytesIO and the write-delivery rules",
     "text": "Reads: every byte stream of length <=4 (quick) / <=5 (thorough) over {a, LF, CR} x every split into "
             "chunks x 3 EOF styles x bufsize {0,2,8192} / {0,1,2,3,8192} x modes rb/r/rU(/rbU) x every history of <=3 / <=4 calls "
-            "out of read(1), read(2), read(), readline(), readline(1), readline(3), next(). Writes: 4 partial-write "
+            "out of read(1), read(2), read(), readline(), readline(1), readline(2), readline(3), next() (size limits "
+            "falling before, at and after a newline inside already-buffered read-ahead). Writes: 4 partial-write "
             "policies x 5 bufsizes x binary/text x every history of <=3 / <=5 calls out of 4 writes, flush, close. "
             "Mixed r+ histories of <=3 calls over both alphabets.",
     "note": "universal-newline mode: exact comparison only for histories made of readline()/next() without size; "
@@ -28,8 +29,10 @@ META = {
 }
 
 STOP = "<StopIteration>"
-READ_OPS = [("read", 1), ("read", 2), ("read", None), ("readline", None), ("readline", 1), ("readline", 3),
-            ("next",)]
+# readline limits 1, 2, 3: with streams of length <=4 the limit 2 is the one that can fall strictly inside
+# buffered read-ahead with a newline *and* further bytes before the limit (buffer LF x | y ...)
+READ_OPS = [("read", 1), ("read", 2), ("read", None), ("readline", None), ("readline", 1), ("readline", 2),
+            ("readline", 3), ("next",)]
 WRITE_OPS = [("write", b"a"), ("write", b"b\nc"), ("write", b"\n"), ("write", b"d\n\ne"), ("flush",), ("close",)]
 EOF_KINDS = ["empty", "none", "raise"]
 WPOL = ["all", "one", "two", "alt"]
